@@ -173,7 +173,7 @@ theorem usL_insertBefore (p : Nat) (v1 : Option Nat) (ins : Nat) (hi : ins ≠ 0
     refine Keeps.bind (usL_ensureIsolated ins) (fun _ => ?_)
     refine Keeps.bind (usL_modNode p _ (fun n hn => ⟨fun h => ?_⟩) (fun _ _ => rfl))
       (fun _ => usL_modNode ins _ (fun n hn => ⟨hn.kids⟩) (fun _ _ => rfl))
-    rcases mem_insertBeforeIn h with h | h
+    rcases qs_mem_insertBeforeIn h with h | h
     · exact hi h.symm
     · exact hn.kids h
 
